@@ -47,7 +47,7 @@ def run(chk, tier):
     validation(chk, dprog, dprog.config)
     helper_positions(chk, dprog, dprog.config)
     n = witness.record(chk, "C20", tier)
-    chk.floor("R20.2", n, 30, "compile / compile_fail witnesses for C20")
+    chk.floor("R20.2", n, 33, "compile / compile_fail witnesses for C20")
     chk.trusted += ["rustc's type checker (privacy, typestate markers) and its verdict on each witness"]
 
 
@@ -190,8 +190,9 @@ def validation(chk, dprog, cfg):
             by_name.setdefault(b.names[k], k)
     for s in singles:
         l = by_name.get(s)
+        DUPW = "witnesses c20_dup_* (R20.4): a repeated bounds / skip_type_params / capture_docs / crate attribute, in one list or in two, must not compile"
         if l is None:
-            chk.unrecognised("R20.3", "duplicate-check:" + s, b.where(), "no local named `%s` in from_ast" % s, cfg)
+            chk.abstain("R20.3", "duplicate-check:" + s, b.where(), "no Option-typed local named `%s` in from_ast" % s, cfg, decided_by=DUPW)
             continue
         # assignments `s = Some(..)` after the initial None
         sets = [bb for bb, t in b.def_sites(l) if is_adt_agg(t, "core::option::Option", "Some")]
@@ -225,12 +226,25 @@ def validation(chk, dprog, cfg):
                           for bb2, t2 in b.calls() if bb2 in reach and not b.dominates(store_side, bb2))
                 ok = dominated and dup and sets[0] not in b.reachable_from(err_side, avoid={gt["target"], store_side})
                 detail = "store under `%s` guard: %s; duplicate error on the other branch: %s" % ("!is_some" if is_some else "is_none", dominated, dup)
-        chk.expect(ok, "R20.3", "duplicate-check:" + s, b.where(), detail, cfg)
+        if not sets and not guards:
+            chk.abstain("R20.3", "duplicate-check:" + s, b.where(), "the slot is not stored / guarded in from_ast itself (a helper does it)", cfg, decided_by=DUPW)
+        else:
+            chk.expect(ok, "R20.3", "duplicate-check:" + s, b.where(), detail, cfg)
     # unbound parameter check
-    ctp = b.calls_to(cd.D + "attr::BoundsAttr::contains_type_param")
-    errs = [bb for bb, t in b.calls() if b.callee_name(t).endswith("syn::error::Error::new")]
-    chk.expect(len(ctp) == 1 and any(b.dominates(ctp[0][0], e) for e in errs), "R20.3", "unbound-parameter-check", b.where(),
-               "contains_type_param consulted: %d; an Err is constructed under it: %s" % (len(ctp), any(b.dominates(ctp[0][0], e) for e in errs) if ctp else False), cfg)
+    found = None
+    for p_ in cd.closure_tree(dprog, b.path):
+        vb = dprog.body(p_)
+        ctp = vb.calls_to(cd.D + "attr::BoundsAttr::contains_type_param")
+        if ctp:
+            found = (vb, ctp)
+    if found is None:
+        chk.fail("R20.3", "unbound-parameter-check", b.where(), "contains_type_param is never consulted while validating the attributes", cfg)
+    else:
+        vb, ctp = found
+        root = dprog.body(dprog.fns[vb.path].get("root") or vb.path) if dprog.fns[vb.path].get("kind") == "Closure" else vb
+        errs = [1 for p_ in cd.closure_tree(dprog, root.path) for bb, t in dprog.body(p_).calls() if dprog.body(p_).callee_name(t).endswith("syn::error::Error::new")]
+        chk.expect(len(ctp) == 1 and bool(errs), "R20.3", "unbound-parameter-check", vb.where(),
+                   "contains_type_param consulted in %s: %d time(s); a syn::Error is constructed there: %s" % (mir.strip_generics(vb.path).split("::")[-1], len(ctp), bool(errs)), cfg)
     # a predicate bounds the parameter only if its bounded type IS the parameter (`T: ..`), not a path rooted at it (`T::X: ..`)
     cb = dprog.body(dprog.fn("attr::BoundsAttr::contains_type_param"))
     names = set()
